@@ -56,9 +56,9 @@ Proof.
       apply ext_rbind; [apply IHe|]. intros; apply ext_refl.
     + apply ext_rbind; [apply IHe|]. intros; apply ext_refl.
     + (* EAnd *) apply ext_rbind; [apply IHe|]. intros va out1.
-      destruct va as [z|[|]|s|s|s| |c k|l]; try apply ext_refl. apply IHe.
+      destruct va as [z|[|]|s|s|s| |c k|l|ro ra rb]; try apply ext_refl. apply IHe.
     + apply ext_rbind; [apply IHe|]. intros va out1.
-      destruct va as [z|[|]|s|s|s| |c k|l]; try apply ext_refl. apply IHe.
+      destruct va as [z|[|]|s|s|s| |c k|l|ro ra rb]; try apply ext_refl. apply IHe.
     + apply ext_rbind; [apply IHe|]. intros va out1.
       apply ext_rbind; [apply IHe|]. intros; apply ext_refl.
     + apply ext_rbind; [apply IHe|]. intros; apply ext_refl.
@@ -80,20 +80,24 @@ Proof.
       destruct fl; [apply IHe|apply ext_refl].
     + (* EList *) apply ext_rbind; [apply ext_map_eval; intros; apply IHe|].
       intros; apply ext_refl.
+    + (* ERange *) apply ext_rbind; [apply IHe|]. intros va out1.
+      apply ext_rbind; [apply IHe|]. intros; apply ext_refl.
   - intros p env out ss. destruct ss as [|s rest]; cbn [exec]; [apply ext_refl|].
     destruct s.
     + apply ext_rbind; [apply IHe|]. intros; apply IHx.
     + apply ext_rbind; [apply IHe|]. intros v out1. destruct v; try apply ext_refl. apply IHx.
     + apply ext_rbind; [apply IHe|]. intros v out1. destruct v; try apply ext_refl.
       apply ext_rbind; [apply IHx|]. intros fl out2. destruct fl; [apply IHx|apply ext_refl].
-    + apply ext_rbind; [apply IHe|]. intros v out1. destruct v as [z|[|]|s0|s0|s0| |c0 k0|l0]; try apply ext_refl.
+    + apply ext_rbind; [apply IHe|]. intros v out1. destruct v as [z|[|]|s0|s0|s0| |c0 k0|l0|ro ra rb]; try apply ext_refl.
       * apply ext_rbind; [apply IHx|]. intros fl out2. destruct fl; [apply IHx|apply ext_refl].
       * apply IHx.
     + apply ext_rbind; [apply IHe|]. intros; apply ext_refl.
     + apply ext_rbind; [apply IHe|]. intros; apply IHx.
     + (* SForIn *) apply ext_rbind; [apply IHe|]. intros v out1. destruct v; try apply ext_refl.
-      apply ext_rbind; [apply ext_iter_list; intros; apply IHx|]. intros fl out2.
-      destruct fl; [apply IHx|apply ext_refl].
+      * apply ext_rbind; [apply ext_iter_list; intros; apply IHx|]. intros fl out2.
+        destruct fl; [apply IHx|apply ext_refl].
+      * apply ext_rbind; [apply ext_iter_list; intros; apply IHx|]. intros fl out2.
+        destruct fl; [apply IHx|apply ext_refl].
 Qed.
 
 Lemma mono_add k : forall n,
